@@ -21,7 +21,7 @@ TASK. Produce TWO changes to the library source (files under src/wormhole, NOT u
 
   patch20.diff - TURN SHIFT: the change moves WHEN something happens relative to the reactor turn, without changing WHAT is done: a synchronous call becomes `reactor.callLater(0, ..)` / `eventual_queue.eventually(..)` / `deferLater(..)` / `d.addCallback(..)` on an already-fired Deferred (or the reverse: something that was deferred to a later turn is now done at once); a notification is delivered before instead of after the state it reports was updated (or after instead of before); a `yield` / `await` point is added or removed in an inlineCallbacks function so that other events can (or can no longer) interleave; a callback is fired directly instead of through the eventual queue; a loop that handled all queued items in one turn now handles one per turn (or the reverse). With nothing else happening in between, the result is the same. The property breaks when something specific arrives, is called, or is cancelled in the newly opened (or newly closed) window: a second message in the same TCP segment, a close() in between, a re-entrant call from the application's callback, a connection loss before the deferred part runs, two events whose relative order now depends on the queue. Your demo must produce exactly that interleaving on the real objects (use twisted.internet.task.Clock and drive the turns yourself).
 
-  patch21.diff - "EQUIVALENT" API SUBSTITUTION: a library / builtin call is replaced by another that a reviewer would take for equivalent, and is not for some inputs: `binascii.hexlify/unhexlify` <-> `bytes.hex()/bytes.fromhex()` (whitespace, odd length, str vs bytes), `int(x, 16)` <-> `int.from_bytes`, `struct.pack` formats, `json.dumps(..).encode()` options (sort_keys, separators, ensure_ascii), `str.split("-")` <-> `str.partition` / `rsplit` / `split("-", 1)`, `re.match` <-> `re.search` <-> `re.fullmatch`, `^..$` <-> `\\A..\\Z`, `str.isdigit` <-> `isdecimal` <-> `[0-9]`, `os.path.join/abspath/normpath/realpath/basename` <-> each other or pathlib, `startswith(dir)` <-> `commonpath`, `dict.get(k) or default` <-> `dict.get(k, default)`, `x in list` <-> `x in set/dict` (hashability), `sorted` <-> `list.sort` / `max` / `min` with ties, `==` <-> `is`, `hmac.compare_digest` <-> `==`, `os.urandom` <-> `random`, `unicodedata.normalize` forms, `str.lower()` <-> `casefold()`, `bytes + bytes` <-> `bytearray` (aliasing), `dict(a, **b)` <-> `{**b, **a}` (precedence), `zip` <-> `zip_longest`, `time.time` <-> `reactor.seconds`, `Deferred.addBoth` <-> `addCallback`, `callback` <-> `errback`, `loseConnection` <-> `abortConnection`, `discard` <-> `remove`, `list(d)` <-> iterating `d` directly. The common inputs give the same result; the property breaks for a specific legal (or attacker-chosen) input: an empty string, a trailing newline, a non-ASCII digit, an odd-length hex string, a duplicate, a tie, a name with several separators, a falsy-but-present value. Your demo must feed exactly that input to the real code.
+  patch21.diff - "EQUIVALENT" API SUBSTITUTION: a library / builtin call is replaced by another that a reviewer would take for equivalent, and is not for some inputs: `binascii.hexlify/unhexlify` <-> `bytes.hex()/bytes.fromhex()` (whitespace, odd length, str vs bytes), `int(x, 16)` <-> `int.from_bytes`, `struct.pack` formats, `json.dumps(..).encode()` options (sort_keys, separators, ensure_ascii), `str.split("-")` <-> `str.partition` / `rsplit` / `split("-", 1)`, `re.match` <-> `re.search` <-> `re.fullmatch`, `^..$` <-> `\\A..\\Z`, `str.isdigit` <-> `isdecimal` <-> `[0-9]`, `os.path.join/abspath/normpath/realpath/basename` <-> each other or pathlib, `startswith(dir)` <-> `commonpath`, `dict.get(k) or default` <-> `dict.get(k, default)`, `x in list` <-> `x in set/dict` (hashability), `sorted` <-> `list.sort` / `max` / `min` with ties, `==` <-> `is`, `hmac.compare_digest` <-> `==`, `os.urandom` <-> `random`, `unicodedata.normalize` forms, `str.lower()` <-> `casefold()`, `bytes + bytes` <-> `bytearray` (aliasing), `dict(a, **b)` <-> `{{**b, **a}}` (precedence), `zip` <-> `zip_longest`, `time.time` <-> `reactor.seconds`, `Deferred.addBoth` <-> `addCallback`, `callback` <-> `errback`, `loseConnection` <-> `abortConnection`, `discard` <-> `remove`, `list(d)` <-> iterating `d` directly. The common inputs give the same result; the property breaks for a specific legal (or attacker-chosen) input: an empty string, a trailing newline, a non-ASCII digit, an odd-length hex string, a duplicate, a tie, a name with several separators, a falsy-but-present value. Your demo must feed exactly that input to the real code.
 
 Avoid the most obvious spot for this property (the first function anyone would look at); prefer a collaborator, a less-travelled row of a state machine, or a helper. Keep each change small (a few lines).
 
